@@ -14,6 +14,7 @@ mod cc14;
 mod common;
 mod newtypes;
 mod nrpn;
+mod probe;
 #[cfg(feature = "cfg_std")]
 mod polling;
 #[cfg(feature = "cfg_std")]
@@ -109,6 +110,28 @@ fn main() {
                 em.emit(v[0], v[1..].to_vec());
             }
             em.finish();
+        }
+        Some("dump") => {
+            // the declarative tables as the compiler / the implementation sees them
+            let mut o = out;
+            for (n, r, m) in probe::newtypes() {
+                writeln!(o, "NT {} {} {}", n, r, m).unwrap();
+            }
+            for (k, s, d) in probe::table() {
+                writeln!(o, "CONV {} {} {}", k, probe::TYPES[s], probe::TYPES[d]).unwrap();
+            }
+            for (n, v) in generated::consts::consts() {
+                writeln!(o, "CONST {} {}", n, v).unwrap();
+            }
+            for b in 0..=255u8 {
+                use std::convert::TryFrom;
+                if let Ok(t) = helgoboss_midi::ShortMessageType::try_from(b) {
+                    writeln!(o, "SMT {:?} {}", t, u8::from(t)).unwrap();
+                }
+                if let Ok(t) = helgoboss_midi::TimeCodeType::try_from(b) {
+                    writeln!(o, "TCT {:?} {}", t, u8::from(t)).unwrap();
+                }
+            }
         }
         _ => {
             let mut o = out;
